@@ -19,6 +19,7 @@ THEOREMS = [
     (NS + "C11_hello_keeps_key", "full"),
     (NS + "C11_update_every_iteration", "full"),
     (NS + "C11_loop_never_stalls", "full"),
+    (NS + "C11_no_amplification", "full"),
     (NS + "C11_unverified_budget", "full"),
     (NS + "C11_halfopen_sends_only_replies", "full"),
     (NS + "C11_halfopen_receive", "full"),
@@ -31,15 +32,16 @@ ASSUMPTIONS = [
     "'cannot stop the server': the loop model is a total function in which every exception path of the code is an explicit branch "
     "(contained); that the model knows every path is what the differential on hostile streams validates; exceptions raised by C "
     "extensions on inputs the model deems fine, OS errors from sendto and CPU exhaustion by floods of valid hellos are outside",
-    "no amplification, whole runs (C11_unverified_budget): in any run of the loop model from the empty server an address that is not "
-    "promoted in that run is sent at most as many datagrams as it has sent datagrams whose header says CLIENT_HELLO - whatever else "
-    "arrives from it or anybody, whatever the handlers do, for every clock, MTU and configuration; every such datagram consists of queued "
-    "SERVER_HELLO messages that leave the queue - no keep-alive, no resend (C11_halfopen_sends_only_replies, C11_halfopen_receive: a "
-    "half-open connection stays 'quiet' under every datagram that does not promote it); a connection queues one SERVER_HELLO in its life "
-    "(repair 30a6fe7: C11_one_hello_per_connection, C11_hello_keeps_key), no longer than the hello it answers (repair 8599f81: "
-    "C11_hello_reply_once, C11_short_hello_not_answered), both in the same 26 bytes of CRC framing. The sum in BYTES over a run is not a "
-    "Lean theorem (partial): it is what the monitor measures on the real loop (bytes sent to an unpromoted address <= bytes received "
-    "from it, per address, after every iteration)",
+    "no amplification, whole runs, in BYTES (C11_no_amplification): in any run of the loop model from the empty server the bytes of all "
+    "datagrams handed to the socket for an address that is not promoted in that run (no connect event for it) never exceed the bytes of "
+    "the datagrams queued from that address - whatever else arrives from it or anybody, whatever the handlers do, for every clock, random "
+    "stream, MTU, configuration, AEAD and all handshake externals (key, signature and padding sizes); in datagrams: at most as many as "
+    "it sent CLIENT_HELLO datagrams (C11_unverified_budget), each consisting of queued SERVER_HELLO messages that leave the queue - no "
+    "keep-alive, no resend (C11_halfopen_sends_only_replies; C11_halfopen_receive: a half-open connection stays 'quiet' under every "
+    "datagram that does not promote it). The proofs rest on the two repairs: a connection queues one SERVER_HELLO in its life (30a6fe7: "
+    "C11_one_hello_per_connection, C11_hello_keeps_key), no longer than the hello it answers (8599f81: C11_hello_reply_once, "
+    "C11_short_hello_not_answered). What ties the model's byte counts to the code: every send event of the differential run carries the "
+    "datagram length (compared per iteration), and the monitor measures the same inequality on the real loop after every iteration",
 ]
 RULE = ("the REAL server loop (see C10) with honest echo clients running throughout and hostile streams from many addresses: random bytes of "
         "every length 0..2000, valid headers with garbage bodies, truncated and complete hellos from strangers, everything also from "
